@@ -2,6 +2,7 @@ import Cdecao.Proofs.NodeWrong
 import Cdecao.Engine.BabOpt
 import Cdecao.Proofs.NodeSpecAsm
 import Cdecao.Proofs.SpecExec
+import Cdecao.Props.C02F1
 /-! # C02 — without room limits the result is optimal; "no solution" means none exists
 
 The full statement is FALSE for the code (known finding F1: the branching never cancels a course
